@@ -53,6 +53,7 @@ func replayOnce(path string, verbose bool) int {
 		return int(uint16(h[0])<<8|uint16(h[1]))%1000 >= rf.PredDeny
 	}
 	e := NewEngine(c, rf.Config)
+	e.CheckProp = rf.Property
 	if !e.Init() {
 		fmt.Println("inconclusive:", e.Inconclusive)
 		return 2
@@ -77,7 +78,7 @@ func replayOnce(path string, verbose bool) int {
 			fmt.Printf("  >>> %s step %d: %s\n", v.Signature, v.Step, v.Text)
 			shown++
 		}
-		if len(e.Viol) > 0 {
+		if e.stopNow() {
 			break
 		}
 	}
